@@ -185,7 +185,7 @@ impl C10 {
         let mut n = 0;
         let fa = fstar();
         for (k, s) in fa.iter().enumerate() {
-            for sig in [vec![], vec![0u8], vec![7u8; 255], vec![9u8; 256]] {
+            for sig in [vec![], vec![0u8], vec![5u8; 32], vec![6u8; 64], vec![7u8; 255], vec![9u8; 256], vec![3u8; 65535], vec![4u8; 65536]] {
                 for idx in [0usize, 1, (1 << 32) - 1, 1 << 32, 1 << 63] {
                     let (l, i, e) = (&fa[(k + 1) % fa.len()], &fa[(k + 2) % fa.len()], &fa[(k + 3) % fa.len()]);
                     let case = json!({"kind":"prove_input","secret":sdec(s),"index":idx,"signal_len":sig.len()});
@@ -323,7 +323,7 @@ impl Prop for C10 {
             self.field(v, &mut out);
             n += 1;
         }
-        for len in [0usize, 1, 2, 3, 20, 21, 64] {
+        for len in [0usize, 1, 2, 3, 20, 21, 64, 255, 256, 257] {
             for rot in 0..fa.len().min(if q { 6 } else { fa.len() }) {
                 let v: Vec<BigUint> = (0..len).map(|k| fa[(k + rot) % fa.len()].clone()).collect();
                 self.vec_fr(&v, &mut out);
